@@ -22,7 +22,8 @@ RULE = (
     "text and the empty string; (e) type nesting to depth 200; (f) the same faults inside imported "
     "module files.  Monitors: exception escape (any BaseException), result type (Ok/Err), "
     "Logger.error(err) must render, every [file.fcp:line] citation must name a registered source and "
-    "an existing line, CPU budget 30 s per input (twice in isolation => violation).  distinct = "
+    "an existing line and the quoted source text must be that line; every third input is parsed and "
+    "rendered through one long-lived shared Logger (history of parses); CPU budget 30 s per input (twice in isolation => violation).  distinct = "
     "(input class, outcome, normalised first error message)."
 )
 ASSUMPTIONS = [
@@ -135,7 +136,8 @@ def judge(run, kind, parse, text, sources_hint=None):
         run.violation("rendered diagnostic is empty", case)
         return
     run.count("errors_rendered")
-    for m in re.finditer(r"\[([^\[\]:\s]+\.fcp):(-?\d+)\]", rendered):
+    cites = list(re.finditer(r"\[([^\[\]:\s]+\.fcp):(-?\d+)\]", rendered))
+    for ci, m in enumerate(cites):
         fname, line = m.group(1), int(m.group(2))
         src = lg.sources.get(fname)
         run.count("citations_checked")
@@ -148,6 +150,15 @@ def judge(run, kind, parse, text, sources_hint=None):
             case["rendered"] = rendered
             run.violation("diagnostic cites %s:%d but the source has %d lines" % (fname, line, nlines), case)
             return
+        # the source line quoted under a citation ("<n> | <text>") must be that line of that source
+        end = cites[ci + 1].start() if ci + 1 < len(cites) else len(rendered)
+        q = re.search(r"^%d \| (.*)$" % line, rendered[m.end():end], re.M)
+        if q is not None:
+            run.count("quoted_lines_checked")
+            if q.group(1) != src.split("\n")[line - 1]:
+                case["rendered"] = rendered
+                run.violation("diagnostic quotes %r as line %d of %s, the source line is %r" % (q.group(1)[:80], line, fname, src.split("\n")[line - 1][:80]), case)
+                return
     run.case(sig="%s|err|%s" % (kind, norm(repr(err))))
     key = "sampled_" + kind.split("-")[0]
     if len(text) < 300 and run.counters.get(key, 0) < 1 and kind != "valid":
@@ -186,7 +197,20 @@ def random_text(r):
     return 'version: "3"\n' + " ".join(r.choice(POOL) for _ in range(n // 2))
 
 
+_shared = {"logger": None, "n": 0}
+
+
 def string_parse(text):
+    """Two thirds of the inputs get a fresh Logger; one third shares one long-lived Logger (the
+    history: many parses and renderings through the same logger object)."""
+    _shared["n"] += 1
+    if _shared["n"] % 3 == 0:
+        if _shared["logger"] is None:
+            from fcp.error import Logger
+
+            _shared["logger"] = Logger({})
+        lg = _shared["logger"]
+        return lambda: PC.parse_string(text, lg)
     return lambda: PC.parse_string(text)
 
 
@@ -268,7 +292,7 @@ def run(run):
 
 
 def conclude(run):
-    run.require("inputs", "outcome_ok", "outcome_err", "errors_rendered", "citations_checked")
+    run.require("inputs", "outcome_ok", "outcome_err", "errors_rendered", "citations_checked", "quoted_lines_checked")
 
 
 def replay(run, case):
